@@ -74,6 +74,26 @@ def run(rng, tier, model_ok):
         add("%s %s to %s" % (xs, name, e), si_oracle(x, na, nb))
         add("%s %s to %s" % (xs, e, name), si_oracle(x, nb, na))
         stats["every_unit"] += 2
+    # ... and raised to small powers on both sides (the factor is raised, also when it is huge or tiny)
+    pw_texts = {}
+    for name in unit_texts:
+        if name in exp1 and len(parsed[name]) == 1 and parsed[name][0][1] == 1:
+            base_words = [(w.split("^")[0], int(w.split("^")[1]) if "^" in w else 1) for w in exp1[name][0].split("*")]
+            for k in (2, 3, -1, -2, -3):
+                pw_texts[(name, k)] = ("%s^%d" % (name, k), "*".join("%s^%d" % (w, q * k) for w, q in base_words))
+    more = sorted({t for pair in pw_texts.values() for t in pair})
+    parsed.update(dict(zip(more, unitlib.impl_units(more))))
+    for (name, k), (a, b) in sorted(pw_texts.items()):
+        na, nb = parsed.get(a), parsed.get(b)
+        if not na or not nb:
+            continue
+        x = Fraction(rng.randint(1, 99), rng.choice([1, 10]))
+        xs = gens_dec(x)
+        if tier == "quick" and rng.random() < 0.5:
+            continue
+        add("%s %s to %s" % (xs, a, b), si_oracle(x, na, nb))
+        add("%s %s to %s" % (xs, b, a), si_oracle(x, nb, na))
+        stats["every_unit_powers"] = stats.get("every_unit_powers", 0) + 2
     # prefixes: exactly the power of ten
     for e, word, name in prefix_words:
         na, nb = parsed.get(word), parsed.get(name)
